@@ -1018,6 +1018,9 @@ void QXmppTransferManager::ibbDataIqReceived(const QXmppIbbDataIq &iq)
         response.setType(QXmppIq::Error);
         response.setError(error);
         client()->sendPacket(response);
+
+        // the bytestream is broken, the received data cannot be complete anymore
+        job->terminate(QXmppTransferJob::ProtocolError);
         return;
     }
 
